@@ -202,9 +202,25 @@ def read_affine(ctx, sigtail, case, dist, N, transform=None, tol=1e-9, use_globa
     tol: accuracy of the linear solves behind the sampler (relative to the magnitude of the output).
     use_global: sample(N) without a generator, numpy's module-level functions scripted (the default code path)."""
     from cuqiverif.script_rng import global_state_digest
+    from cuqiverif.script_rng import ScriptError
+    from cuqiverif.core import MachineryError
     ro = ReadOff(dist, N, transform, use_global)
+    _call = ro.call
+
+    def guarded(blocks):
+        try:
+            return _call(blocks)
+        except (NotImplementedError, ScriptError, MachineryError):
+            raise                       # documented refusal (handled by the caller) / machinery
+        except Exception as e:          # the sampler itself fails on a documented configuration
+            ctx.mismatch("sample_raises/" + sigtail, case, "sample(%d%s) raises: %r" % (N, "" if use_global else ", rng=generator", e))
+            return None
+    ro.call = guarded
     g0 = global_state_digest()
-    s0, reqs = ro.call(None)
+    r0 = ro.call(None)
+    if r0 is None:
+        return None
+    s0, reqs = r0
     if not use_global and not reqs and global_state_digest() != g0:
         # the generator that was passed in was never asked, and the global stream moved instead
         ctx.mismatch("rng_ignored/" + sigtail, case, "sample(N, rng=generator) did not draw from the given generator and "
@@ -221,7 +237,10 @@ def read_affine(ctx, sigtail, case, dist, N, transform=None, tol=1e-9, use_globa
         for i in range(m):
             blocks = [np.zeros(sh) for sh in reqs]
             blocks[r][i, :] = w
-            s, reqs2 = ro.call(blocks)
+            r1 = ro.call(blocks)
+            if r1 is None:
+                return None
+            s, reqs2 = r1
             if reqs2 != reqs:
                 machinery("number/shape of normal requests depends on the values drawn (%s)" % sigtail)
             S = ro.matrix(s)
@@ -246,7 +265,10 @@ def read_affine(ctx, sigtail, case, dist, N, transform=None, tol=1e-9, use_globa
         k += m
         blocks.append(Z)
         z_all.append(Z)
-    s, _ = ro.call(blocks)
+    r2 = ro.call(blocks)
+    if r2 is None:
+        return None
+    s = r2[0]
     S = ro.matrix(s)
     exp = S0 + L @ np.vstack(z_all)
     if S is None or not np.allclose(S, exp, rtol=tol, atol=tol * max(1.0, np.abs(exp).max())):
@@ -492,6 +514,24 @@ def _tokens_for(shape, Z, N, dim):
 
 
 def run_wiring(ctx, c, use_global=False):
+    """Wiring facet of one case; an exception raised inside the library while constructing / sampling a documented
+    configuration is reported as a mismatch (scripted-generator and harness failures stay machinery errors)."""
+    import traceback
+    from cuqiverif.script_rng import ScriptError
+    from cuqiverif.core import MachineryError
+    try:
+        return _run_wiring(ctx, c, use_global)
+    except (ScriptError, MachineryError):
+        raise
+    except Exception as e:
+        frames = traceback.extract_tb(e.__traceback__)
+        if not any("/cuqi/" in f.filename and "cuqiverif" not in f.filename for f in frames):
+            raise
+        ctx.mismatch("wiring_raises/" + wiring_sig(c) + ("/rng=none" if use_global else ""), c,
+                     "constructing / sampling a documented configuration raises: %r" % (e,))
+
+
+def _run_wiring(ctx, c, use_global=False):
     """use_global: sample(N) without a generator - the module-level numpy.random functions are scripted (numpy families),
     scipy's .rvs / the rejection sampler are recorded as with a generator (their random_state / rng is then not judged)."""
     import scipy.stats as sps
@@ -850,13 +890,16 @@ def _group_gmrf(cases):
 def tlc_jobs(ctx, jobs):
     """Runs the TLC invocations `jobs` = [(cfg, workers, expect_violation, heap)] concurrently (JVM start-up dominates) and
     accounts them in the run context exactly like ctx.tlc does."""
-    import os
+    import os, time
     from concurrent.futures import ThreadPoolExecutor
     from cuqiverif import tlc as _tlc
+    wds = []
 
     def one(job):
         cfg, workers, expect, heap = job
-        wd = os.path.join(_tlc.WORK, "Sampling-%d-%s" % (os.getpid(), cfg.replace(".cfg", "").replace("Sampling.", "")))
+        wd = os.path.join(_tlc.WORK, "Sampling-%d-%d-%s" % (os.getpid(), int(time.time() * 1000) % 10 ** 7,
+                                                           cfg.replace(".cfg", "").replace("Sampling.", "")))
+        wds.append(wd)
         return _tlc.run_tlc("Sampling", cfg=cfg, workers=workers, timeout=1500, extra_modules=EXTRA, expect_violation=expect, workdir=wd, heap=heap)
     with ThreadPoolExecutor(max_workers=len(jobs)) as ex:
         futs = [ex.submit(one, j) for j in jobs]
@@ -875,6 +918,8 @@ def tlc_jobs(ctx, jobs):
                                  "wall_s": round(res.wall_s, 2), "cases": len(res.cases), "violated": res.violated, "coverage": None})
             out.append(res)
     if err is not None:
+        for wd in wds:                  # nothing is handed back: leave no work directory behind
+            _tlc.cleanup(wd)
         raise err
     return out
 
@@ -887,6 +932,15 @@ def run(ctx):
     jobs = [("Sampling.cases.%s.cfg" % ctx.tier, 8, False, "2g"), ("Sampling.stream.%s.cfg" % ctx.tier, 4, False, "2g"),
             ("Sampling.deep.%s.cfg" % ctx.tier, 2, False, "1g")] + [(cfg, 2, True, "1g") for cfg, _ in devs]
     results = tlc_jobs(ctx, jobs)
+    try:
+        _run_with_results(ctx, results, devs, thorough)
+    finally:
+        for r in results:               # also on the exception paths (machinery errors raised during the replay)
+            _tlc.cleanup(r)
+
+
+def _run_with_results(ctx, results, devs, thorough):
+    from cuqiverif import tlc as _tlc
     res, res3, res4 = results[:3]
     # ---- model checking + case emission (facets 1, 2)
     ctx.model_must_hold(res, "Sampling/cases")
